@@ -1064,8 +1064,11 @@ def check_rules_full(pid, replay=None):
     if st["crashes"] and not n:
         raise Infra("L1 executor died: %s" % st["crashes"][0]["tail"][-1500:])
     if pid == "C03":
-        # "a URR whose triggers include periodic reporting is in addition registered for periodic querying": also when hundreds
-        # of them are created while the periodic server is busy
+        # "a URR whose triggers include periodic reporting is in addition registered for periodic querying": over sessions that
+        # share periods and come and go (full stack, MonL2!VTick C03 clause) ...
+        mc2, sc2, rnd2, v2, st2 = l2_part(pid, "Perio", 6 if thorough else 5, "periodic", 800 if thorough else 100, 400 if thorough else 40)
+        n += report_violations(pid, v2, st2["crashes"], "L2 family Perio")
+        # ... and also when hundreds of them are created while the periodic server is busy
         nrt, _ = realtime_part(pid, "regflood", 1, kbase(pid), accept=("C15:URRs with the periodic trigger were created",))
         n += nrt
     p = os.path.join(vlib.VERIF, "evidence", pid + ".json")
@@ -1516,6 +1519,9 @@ def check_c19_full(pid, replay=None):
     n = report_violations(pid, viols, st["crashes"], "L2 family Perio")
     if st["crashes"] and not n:
         raise Infra("L2 executor died: %s" % st["crashes"][0]["tail"][-1500:])
+    # apply-action words with further flags next to BUFF / NOCP in buffered-packet notifications (full stack, Buffer family)
+    mcb, scb, rndb, vb, stb = l2_part(pid, "Buffer", 4, "buffering", 400 if thorough else 60, 300 if thorough else 40)
+    n += report_violations(pid, vb, stb["crashes"], "L2 family Buffer")
     # the flags the control plane derives from the Measurement Information the SMF set (MNOP -> packet counts), after Create
     # and after Update URR: usage histories at the PFCP level (Mon!VFlagsOf)
     binary = vlib.build_test_binary("internal/pfcp")
@@ -1899,7 +1905,7 @@ def run_stress(binary, scen, k, race=False, timeout=300):
 STRESS_BASE = {"kind": "perio", "n": 0, "u": 0, "bulk": "reassoc", "burst": 0, "latency": 0, "deadline": 10, "seed": 1, "smfs": 0, "prods": 0, "runms": 0, "stop": False}
 
 
-def realtime_part(pid, kind, n, k, accept=()):
+def realtime_part(pid, kind, n, k, accept=(), wedge=False):
     """scenarios with the REAL timers / tickers (no injected expiries): returns the number of violations reported.
     Every verdict of these scenarios is conditional on measured times (see the harness), a slow machine yields no verdict."""
     binary = vlib.build_test_binary("internal/pfcp")
@@ -1914,6 +1920,8 @@ def realtime_part(pid, kind, n, k, accept=()):
         bad = o.get("bad", "")
         if o.get("fatal") and not bad:
             bad = "C07:" + o["fatal"]
+        if wedge and not o.get("answered", True) and not bad.startswith(pid + ":"):
+            bad = pid + ":the event loop stopped answering during the scenario (%s)" % (o.get("sig") or "no progress")
         if bad.startswith(pid + ":") or any(bad.startswith(a) for a in accept) or (bad and not o.get("answered", True)):
             nv += 1
             doc = {"property": pid, "kind": "realtime", "scenario": sc, "tags": [bad], "note": "RT " + o.get("note", "")}
@@ -2120,6 +2128,9 @@ def check_c18_full(pid, replay=None):
         return check_c18(pid, replay)
     rc = check_c18(pid, None)
     n, notes = realtime_part(pid, "tickfail", 1, kbase(pid), accept=("C15:",))
+    # the loop stalled in a slow data-plane call while 70 transaction timers fire and a notification arrives that cannot be sent
+    n3, notes3 = realtime_part(pid, "txstall", 1, kbase(pid), wedge=True)
+    n, notes = n + n3, notes + notes3
     # ordinary traffic with millisecond transaction timers and an SMF that answers report requests around the time-out: the
     # loop must keep answering (a response taken from the queue just after its timer fired must not block it)
     binary = vlib.build_test_binary("internal/pfcp")
